@@ -50,7 +50,13 @@ type UnpackCase struct {
 }
 
 var uTypes = []string{"value", "string", "int", "bool", "list", "dict", "callable", "iterable", "float", "unpacker", "tok", "sint"}
-var uNames = []string{"a", "b", "c", "d", "e", "f"}
+var uNames = func() []string {
+	names := []string{"a", "b", "c", "d", "e", "f"}
+	for i := 6; i < 140; i++ {
+		names = append(names, "q"+string(rune('a'+i/26))+string(rune('a'+i%26)))
+	}
+	return names
+}()
 
 // strUnpacker is an Unpacker that accepts strings only.
 type strUnpacker struct {
@@ -337,7 +343,7 @@ func validType(t string) bool {
 
 func checkUnpack(c UnpackCase) error {
 	n := len(c.Params)
-	if n > len(uNames) || len(c.Pos) > 8 || len(c.Kw) > 8 || (c.Mode != "args" && c.Mode != "pos") || c.Min < 0 || c.Min > n {
+	if n > len(uNames) || len(c.Pos) > 140 || len(c.Kw) > 8 || (c.Mode != "args" && c.Mode != "pos") || c.Min < 0 || c.Min > n {
 		return fmt.Errorf("malformed case")
 	}
 	for _, p := range c.Params {
@@ -734,6 +740,39 @@ func TestPropUnpackProduct(t *testing.T) {
 
 // TestPropUnpackRandom: independent variable types per parameter (the product enumerates a rotation
 // only), up to 5 parameters, keyword lists of up to 3.
+// TestPropUnpackWide: built-ins with 60-130 parameters (the set of already-bound parameters changes
+// representation at 64): same rules, arguments given positionally up to a drawn point and by keyword beyond it.
+func TestPropUnpackWide(t *testing.T) {
+	vk.Rapid(t, subUnpack, vk.N(1500, 6000), func(t *rapid.T) UnpackCase {
+		c := UnpackCase{Mode: "args"}
+		n := []int{60, 63, 64, 65, 66, 100, 127, 128, 129}[vk.Uniform(t, 9)]
+		firstOpt := vk.Uniform(t, n+1)
+		for i := 0; i < n; i++ {
+			p := UParam{Type: []string{"int", "value", "string"}[vk.Uniform(t, 3)]}
+			if i >= firstOpt {
+				p.Mark = []string{"?", "??"}[vk.Uniform(t, 2)]
+			}
+			c.Params = append(c.Params, p)
+		}
+		kind := rapid.SampledFrom([]string{"right", "right", "right", "right", "right", "right", "wrong", "none"})
+		npos := vk.Uniform(t, n+2)
+		if vk.Chance(t, 0.5) {
+			npos = firstOpt
+		}
+		for i := 0; i < npos; i++ {
+			c.Pos = append(c.Pos, UArg{Kind: kind.Draw(t, "kind")})
+		}
+		for i := 0; i < vk.Uniform(t, 4); i++ {
+			name := "z"
+			if vk.Chance(t, 0.9) {
+				name = uNames[vk.Uniform(t, n)]
+			}
+			c.Kw = append(c.Kw, UArg{Name: name, Kind: kind.Draw(t, "kwkind")})
+		}
+		return c
+	})
+}
+
 func TestPropUnpackRandom(t *testing.T) {
 	vk.Rapid(t, subUnpack, vk.N(40000, 80000), func(t *rapid.T) UnpackCase {
 		c := UnpackCase{Mode: rapid.SampledFrom([]string{"args", "args", "args", "pos"}).Draw(t, "mode")}
